@@ -39,7 +39,8 @@ func (whEngine) Name() string { return "quotawh" }
 const whRoot = extension.RootQuotaName
 
 type whCfg struct {
-	Lag bool `json:"lag"` // informer echo may lag behind several admissions (otherwise delivered right after the commit)
+	Lag  bool `json:"lag"`  // informer echo may lag behind several admissions (otherwise delivered right after the commit)
+	Conc bool `json:"conc"` // consecutive admission requests are handled by two concurrent webhook goroutines (lock-level interleaving)
 }
 
 type whRL map[string]int64
@@ -119,6 +120,7 @@ func whGenRL(g *sim.Rng, dims []string, cap whRL) whRL {
 
 func (whEngine) Generate(p *sim.Plan, g *sim.Rng) {
 	cfg := whCfg{Lag: g.Bool(0.3)}
+	cfg.Conc = !cfg.Lag && g.Bool(0.35)
 	if g.Bool(0.3) {
 		p.FaultRate = 0.08
 		p.Faults = []string{"commit-fails"}
@@ -326,6 +328,7 @@ type whSim struct {
 	ver       int
 	admitted  map[string]int // quota -> version of the latest admitted (accepted) request
 	phantom   bool           // some accepted request was never committed
+	admSeq    int            // number of admissions completed (accepted or rejected)
 }
 
 func whScheme() *runtime.Scheme {
@@ -403,8 +406,20 @@ func (whEngine) Execute(r *sim.Run) {
 	}).Build()
 	s.newTopology()
 	r.Sample("cfg %+v faults=%v", s.cfg, r.Plan.Faults)
-	for _, op := range ops {
-		op := op
+	for i := 0; i < len(ops); i++ {
+		op := ops[i]
+		isReq := func(o whOp) bool { return o.K == "create" || o.K == "update" || o.K == "delete" }
+		if s.cfg.Conc && isReq(op) && i+1 < len(ops) && isReq(ops[i+1]) && ops[i+1].Q != op.Q {
+			// two admission requests in flight at the same time, each on its own webhook goroutine
+			s.deliverEcho(len(s.echo))
+			a, b := ops[i], ops[i+1]
+			i++
+			r.Spawn("admission-0", func() { s.request(&a) })
+			r.Spawn("admission-1", func() { s.request(&b) })
+			r.Drive()
+			r.Probe("concurrent-admission-pair")
+			continue
+		}
 		if !s.cfg.Lag {
 			s.deliverEcho(len(s.echo))
 		} else if len(s.echo) > 0 && r.Flip(0.4) {
@@ -468,6 +483,7 @@ func (s *whSim) request(op *whOp) {
 		return
 	}
 	before := topoString(s.qt.getQuotaTopologyInfo())
+	seqAtStart := s.admSeq
 	var err error
 	var obj *v1alpha1.ElasticQuota
 	switch op.K {
@@ -490,6 +506,9 @@ func (s *whSim) request(op *whOp) {
 	case "delete":
 		err = s.qt.ValidDeleteQuota(cur.obj)
 	}
+	undisturbed := s.admSeq == seqAtStart // no other admission completed while this one was being validated
+	s.admSeq++
+	mySeq := s.admSeq
 	r.OpDone()
 	r.Event("%s %s parent=%s -> %v", op.K, op.Q, op.Parent, err == nil)
 	r.Sample("%s %s parent=%s isParent=%v min=%v max=%v ns=%v tree=%s -> accepted=%v", op.K, op.Q, op.Parent, op.IsPar, op.Min, op.Max, op.NS, op.Tree, err == nil)
@@ -506,7 +525,8 @@ func (s *whSim) request(op *whOp) {
 			}
 		}
 		r.OracleEval()
-		if after := topoString(s.qt.getQuotaTopologyInfo()); after != before {
+		// (taking the snapshot is itself a scheduling point: only compare when no other admission completed in the whole window)
+		if after := topoString(s.qt.getQuotaTopologyInfo()); undisturbed && s.admSeq == mySeq && after != before {
 			r.Fail("rejected-changes-topology", op.K, "rejected %s of %s (%v) changed the recorded topology:\nbefore %s\nafter  %s", op.K, op.Q, err, before, after)
 		}
 		return
@@ -518,6 +538,15 @@ func (s *whSim) request(op *whOp) {
 	if op.K == "create" && cur != nil {
 		// AlreadyExists is detected by storage after admission: the webhook must have rejected it
 		r.Fail("accepted-duplicate-create", "", "create of existing quota %s was admitted", op.Q)
+	}
+	if s.committed[op.Q] != cur {
+		// the stored object changed while the request was in admission (a concurrent request committed first): the API
+		// server answers 409 / AlreadyExists after admission, nothing is persisted
+		s.phantom = true
+		r.Tag("commit-failed-after-admission")
+		r.Probe("commit-conflict-with-concurrent-request")
+		r.Event("commit conflict")
+		return
 	}
 	if f := r.Fault("commit", "commit-fails"); f != "" {
 		// another admission plugin / a 409 on a stale resourceVersion / storage error: admitted but never persisted, no watch event
